@@ -519,6 +519,7 @@ Definition insertion_lines (d : list file_diff) : amap := sort_keys (ins_raw d).
 (* ------------------------------------------------------------------ side conditions *)
 
 Definition no_lf (s : list N) : bool := negb (mem c_nl s).
+Definition is_byte (b : N) : bool := b <=? 255.
 Definition two31 : N := 2147483648.
 
 (* new sides strictly increasing and disjoint, every line number below 2^31 *)
@@ -535,10 +536,10 @@ Fixpoint hunks_sorted (lo : N) (hs : list hunk) : bool :=
 
 Definition hunk_wf (h : hunk) : bool :=
   forallb no_lf (h_old h) && forallb no_lf (h_new h) && no_lf (h_sec h)
-  && (count_of (h_old h) <? two31).
+  && (count_of (h_old h) <? two31) && (h_ns h <? two31).
 
 Definition file_wf (f : file_diff) : bool :=
-  no_lf (fd_mode f) && no_lf (fd_oid_old f) && no_lf (fd_oid_new f)
+  forallb is_byte (fd_path f) && no_lf (fd_mode f) && no_lf (fd_oid_old f) && no_lf (fd_oid_new f)
   && forallb hunk_wf (fd_hunks f) && hunks_sorted 0 (fd_hunks f).
 
 Fixpoint nodup_str (l : list str) : bool :=
@@ -565,4 +566,4 @@ Definition Known_C01_fmt (d : list file_diff) : bool :=
   existsb k1_file d
   || existsb (fun f => live f && (k2_path (fd_path f) || k3_path (fd_path f))) d.
 
-Definition path_ok (p : list N) : bool := negb (k3_path p).
+Definition path_ok (p : list N) : bool := forallb is_byte p && negb (k3_path p).
